@@ -123,6 +123,32 @@ pub fn universe(dim: usize, n_ids: usize) -> Vec<Vec<Vec<u32>>> {
     menu
 }
 
+/// For the binary-quantised metrics at 33 dimensions and more: pseudo-random sign patterns
+/// (a fixed LCG, so the menu is deterministic), Hamming distances around dim/2, so that split
+/// normals are neither all-positive nor periodic. The last id duplicates the first one.
+pub fn universe_signs(dim: usize, n_ids: usize) -> Vec<Vec<Vec<u32>>> {
+    let mut x: u64 = 0x9E37_79B9_7F4A_7C15;
+    let mut next = || {
+        x = x.wrapping_mul(6364136223846793005).wrapping_add(1442695040888963407);
+        (x >> 33) as u32
+    };
+    let mut mk = || -> Vec<u32> {
+        (0..dim)
+            .map(|_| {
+                let r = next();
+                let mag = 1.0 + (r % 3) as f32;
+                (if r & 8 == 0 { mag } else { -mag }).to_bits()
+            })
+            .collect()
+    };
+    let mut menu: Vec<Vec<Vec<u32>>> = (0..n_ids).map(|_| vec![mk(), mk()]).collect();
+    if n_ids >= 3 {
+        let first = menu[0][0].clone();
+        menu[n_ids - 1][0] = first;
+    }
+    menu
+}
+
 pub fn default_ids(n: usize) -> Vec<u32> {
     // always contains 0 and u32::MAX
     let pool = [0u32, 1, 2, u32::MAX, 7, 1 << 16, 1 << 31, 3];
@@ -512,6 +538,7 @@ pub fn observe_built(
                 w.count("planes_judged", stats.planes_judged);
                 w.count("planes_degenerate", stats.planes_degenerate);
                 w.count("margins_uncertain", stats.margins_zero_or_uncertain);
+                w.count("planes_balanced_bq", stats.planes_balanced);
                 if let Err((c, m)) = self_lookup(cfg, db, rtxn, st, &clean, w) {
                     out.push(Violation::new(c, m));
                 }
